@@ -13,6 +13,11 @@ Executable model of `fim/authz/attribute_collector.py` (`ResourceAuthZAttributes
 * `svcStepLegacy` is the exemption as it was before the repair (append-if-absent, then `pop()` of the last
   element, key removed when the list becomes empty); kept only for `legacy_mirror_counterexample`.
 * `toPdp` is `transform_to_pdp_request`; `logCollect` is `LogCollector._collect_attributes_from_topo`.
+* `svcStepObj` / `dispatchAuthz` / `sharedSession`: the same steps with the caller's sliver *object* afterwards (the
+  sliver dispatch is handed the caller's objects), as repaired by /repo 0131a6f; `svcStepObjLegacy` wrote the
+  UNKNOWN-SITE placeholder into the object.
+* `recordSites` / `collectAsm`: the ASM path (validate, then collect); `inferSite` is proved equal to C10's model of
+  what `validate()` records (Proofs/Lemmas/C11Validate.lean).
 No Mathlib.
 -/
 namespace FimVerif.Authz
@@ -249,6 +254,34 @@ def logCollect (sl : Slice) : Log :=
   let l := sl.nodes.foldl logNode {}
   let l := sl.svcs.foldl logSvc l
   sl.facs.foldl logFac l
+
+/-! ### the caller's sliver objects
+
+`collect_resource_attributes(source=<sliver>)` is handed the caller's own sliver objects (an aggregate manager authorizes a
+sliver and then logs it). The step functions above are functional; these say what the *object* looks like afterwards. -/
+
+/-- `_collect_attributes_from_ns_sliver` with the sliver object afterwards (as repaired by /repo 0131a6f: the
+UNKNOWN-SITE placeholder is put on a copy, the caller's object keeps its site) -/
+def svcStepObj (inPorts : List (Option String)) (a : Attrs) (s : SvcS) : Attrs × SvcS := (svcStep inPorts a s, s)
+
+/-- before the repair: `sliver.site = "UNKNOWN-SITE"` was assigned on the caller's object (services of a listed type) -/
+def svcStepObjLegacy (inPorts : List (Option String)) (a : Attrs) (s : SvcS) : Attrs × SvcS :=
+  (svcStep inPorts a s,
+   match lutFind s.stype nstypeLut with
+   | some _ => { s with site := effSite s }
+   | none => s)
+
+/-- one authorization collection over the caller's slivers through the sliver dispatch (no in-slice ports, no
+facilities): the attributes, and the service objects as they are afterwards -/
+def dispatchAuthz (step : Attrs → SvcS → Attrs × SvcS) (ns : List NodeS) (ss : List SvcS) : Attrs × List SvcS :=
+  ss.foldl (fun (p : Attrs × List SvcS) s => ((step p.1 s).1, p.2 ++ [(step p.1 s).2])) (ns.foldl nodeStep init, [])
+
+/-- authorize, log, authorize again - the same objects throughout -/
+def sharedSession (step : Attrs → SvcS → Attrs × SvcS) (ns : List NodeS) (ss : List SvcS) : Attrs × Log × Attrs :=
+  let r1 := dispatchAuthz step ns ss
+  let l1 := logCollect ⟨ns, r1.2, [], []⟩
+  let r2 := dispatchAuthz step ns r1.2
+  (r1.1, l1, r2.1)
 
 /-! ### the ASM path
 
